@@ -372,7 +372,7 @@ func (e *Engine) variadicIfaces(st *State, s *Term, comp string) []*Term {
 	e.declComp(comp, ArrayOf(LocS, IfaceS))
 	var out []*Term
 	for i := int64(0); i < n.IVal.Int64(); i++ {
-		out = append(out, Select(e.comp(st, comp), ElemLoc(SliceBase(s), Add(SliceOff(s), IntT(i)))))
+		out = append(out, Select(e.comp(st, comp), ElemLoc(SliceBase(s), ElemIndex(SliceOff(s), IntT(i)))))
 	}
 	return out
 }
